@@ -14,7 +14,6 @@ func resolvedAddr(consumer, raw Pat) Pat {
 func runC06(c *Ctx) {
 	launched, _ := c.ConstVal("pt.CONSUMER_PHASE_LAUNCHED")
 	consumerAddr, providerAddr, oldAddr := akPats()
-	_ = consumerAddr
 
 	// ---- R1 -----------------------------------------------------------------------------------
 	c.Rule("R1", "AssignConsumerKey on a launched consumer: the replaced address is scheduled for pruning at BlockTime+UnbondingTime and its reverse mapping cannot be deleted; otherwise it is deleted immediately", 6)
@@ -33,6 +32,13 @@ func runC06(c *Ctx) {
 			c.UnreachableWhen(del, fk(ak, "no-delete-when-launched"), T(phaseLaunched))
 			for _, r := range successReturns(ak) {
 				c.MustPassWhen(r, []ssa.Instruction{app}, fk(ak, "launched-replacement-schedules"), T(hasAssignment), T(phaseLaunched))
+			}
+			// a key whose reverse mapping still exists (assigned, or replaced and awaiting pruning) cannot be
+			// assigned again: otherwise the pending prune entry later deletes the mapping of a key in use
+			addrKnown := ABool("GetValidatorByConsumerAddr(consumerId, consumerAddr) found",
+				PCall("pk.Keeper.GetValidatorByConsumerAddr", 1, nil, nil, PParam("consumerId"), consumerAddr))
+			for _, s := range Calls(ak, false, "pk.Keeper.SetValidatorByConsumerAddr", "pk.Keeper.SetValidatorConsumerPubKey") {
+				c.UnreachableWhen(s, fk(ak, "pending-prune-key-not-reassignable", shortName(calleeName(s))), T(addrKnown))
 			}
 		}
 	}
